@@ -25,7 +25,7 @@ EXPLANATION = (
     "skip/stride/atom_indices/chunk dependence.")
 NOT_DECIDED = ["equality of the values read (run-time)", "the XDR offset arithmetic inside C", "efficient-striding seek path of xtc/trr beyond its structure"]
 ASSUMPTIONS = ["read_next_timestep / read_xtc / read_trr consume exactly one frame per successful call"]
-FLOORS = {"C02-R1": 30, "C02-R2": 8, "C02-R3": 3, "C02-R4": 20, "C02-R5": 15, "C02-R6": 8, "C02-R7": 8, "C02-R8": 27}
+FLOORS = {"C02-R1": 30, "C02-R2": 8, "C02-R3": 3, "C02-R4": 20, "C02-R5": 15, "C02-R6": 7, "C02-R7": 8, "C02-R8": 27}
 
 LOADERS = {  # ext -> class key
     ".xtc": "xtc", ".trr": "trr", ".dcd": "dcd", ".dtr": "dtr", ".h5": "h5", ".nc": "nc", ".mdcrd": "mdcrd", ".xyz": "xyz",
@@ -591,57 +591,7 @@ def _r5_index_arrays(ctx):
 
 
 def _r6(ctx):
-    fn = ctx.py.func(TRAJ, "iterload")
-    mod = ctx.py.mod(TRAJ)
-    # branches: chunk == 0 | pdb | gsd | generic file
-    branches = []
-    top_if = None
-    for n in fn.body:
-        if isinstance(n, ast.If) and "chunk == 0" in src(n.test):
-            top_if = n
-    if top_if is None:
-        ctx.undecided("C02-R6", fn, TRAJ, "iterload", "branches", "`if chunk == 0` chain not found")
-        return
-    cur = top_if
-    while True:
-        branches.append((src(cur.test), cur.body))
-        if len(cur.orelse) == 1 and isinstance(cur.orelse[0], ast.If):
-            cur = cur.orelse[0]
-            continue
-        branches.append(("else", cur.orelse))
-        break
-    for test, body in branches:
-        txt = "\n".join(src(s) for s in body)
-        desc = "branch `%s`" % test[:40]
-        is_file = "read_as_traj" in txt
-        for opt in ("skip", "stride", "atom_indices"):
-            if "gsd" in test and opt == "skip":
-                # gsd: start index plays the role of skip
-                ok = "start=" in txt
-            else:
-                ok = opt in txt
-            ctx.decide(ok, "C02-R6", body[0] if body else fn, TRAJ, "iterload", "%s honours %s" % (desc, opt), "",
-                       "iterload(%s=...) is ignored on this branch (the option is popped from kwargs and never used)" % opt)
-        if not is_file and "gsd" not in test:
-            # load(...)[skip::stride]: skip counts raw frames, so the stride must be applied after it
-            for st in body:
-                for c in ast.walk(st):
-                    if isinstance(c, ast.Call) and call_name(c) == "load":
-                        passes_stride = any(k.arg == "stride" for k in c.keywords)
-                        par = mod.parents.get(c)
-                        sl = par.slice if isinstance(par, ast.Subscript) and isinstance(par.slice, ast.Slice) else None
-                        lower = src(sl.lower) if sl is not None and sl.lower is not None else None
-                        step = src(sl.step) if sl is not None and sl.step is not None else None
-                        ok = (not passes_stride and lower == "skip" and step == "stride")
-                        ctx.decide(ok, "C02-R6", c, TRAJ, "iterload", desc + " applies skip before stride", "load(...)[skip::stride]",
-                                   "stride is applied %s and skip %s: the result is full[::stride][skip:] instead of full[skip::stride]"
-                                   % ("inside load()" if passes_stride else "as slice step %s" % step, "afterwards as [%s:]" % lower))
-        if is_file:
-            ok = "n_frames=chunk" in txt.replace(" ", "") or "n_frames = chunk" in txt
-            ctx.decide(ok, "C02-R6", body[0], TRAJ, "iterload", desc + " reads chunk frames per iteration", "", "chunk is not passed as n_frames")
-            # seek(skip) dominates the loop
-            seek = "f.seek(skip)" in txt and txt.index("f.seek(skip)") < txt.index("while True")
-            ctx.decide(seek, "C02-R6", body[0], TRAJ, "iterload", desc + " seeks to skip before the loop", "", "skip is not applied before the first read")
+    _iterload_by_evaluation(ctx)
     # load(list): same kwargs for every further file, join(check_topology=False, discard_overlapping_frames passed through)
     fn = ctx.py.func(TRAJ, "load")
     loops = [n for n in walk_no_nested(fn) if isinstance(n, ast.For) and "filename_or_filenames" in src(n.iter)]
@@ -1111,3 +1061,109 @@ def _r11_array_store_readers(ctx):
                 ctx.violated("C02-R8", rfn, rel, q, desc, "refused: %s" % (e.exc or e))
             except PUnsupported as e:
                 ctx.undecided("C02-R8", rfn, rel, q, desc, "not evaluable: %s" % e)
+
+
+# ---------------------------------------------------------------------------------------------
+def _iterload_by_evaluation(ctx):
+    """iterload evaluated (sa/tensym.py) as the generator it is, for every kind of file it distinguishes (a format that needs top=, one that carries its
+    topology, PDB, mdcrd which is opened with n_atoms) x chunk in {0, 2, 3, 20} x stride in {1, 2, 3} x skip in {0, 1, 4}: `load` is summarised as "all
+    11 frames", the file object as a cursor whose read_as_traj(n_frames, stride) behaves as the definition (the file classes are held to that by R1 - R8).
+    The chunks yielded are, put together, frames skip, skip+stride, ... of the file; each but the last has `chunk` frames (one chunk when chunk is 0);
+    atom_indices reaches every load / read_as_traj; a format that needs a topology gets it."""
+    from ..tensym import TenSym, Obj, Raised
+    from ..pysym import Unsupported as PUnsupported
+    fn = ctx.py.func(TRAJ, "iterload")
+    NF = 11
+    topo_exts = None
+    ta = ctx.py.mod(TRAJ).module_assign("_TOPOLOGY_EXTS")
+    if ta is not None:
+        try:
+            topo_exts = [c.value for c in ast.walk(ta) if isinstance(c, ast.Constant) and isinstance(c.value, str)]
+        except Exception:
+            topo_exts = None
+    if not topo_exts:
+        raise AnalysisError("_TOPOLOGY_EXTS not found in trajectory.py")
+    for ext, kind in ((".xtc", "a format that needs top="), (".h5", "a format that carries its topology"), (".pdb", "PDB"), (".mdcrd", "mdcrd (opened with n_atoms)")):
+        problems, undec, n_cfg = [], None, 0
+        for chunk in (0, 2, 3, 20):
+            for stride in (1, 2, 3):
+                for skip in (0, 1, 4):
+                    n_cfg += 1
+                    log = {"load": [], "open": [], "rat": []}
+                    topo = Obj(tag="top", n_atoms=5)
+
+                    def load(ev, call, _log=log):
+                        kw = {k.arg: ev.ex(k.value) for k in call.keywords if k.arg}
+                        for k in call.keywords:
+                            if k.arg is None:
+                                kw.update(ev.ex(k.value))
+                        _log["load"].append(kw)
+                        fr = list(range(NF))
+                        s_ = kw.get("stride") or 1
+                        return fr[::s_]       # load(stride=s) = every s-th frame of the file (C02-R1 .. R5)
+
+                    def opener(ev, call, _log=log):
+                        kw = {k.arg: ev.ex(k.value) for k in call.keywords if k.arg}
+                        _log["open"].append(kw)
+                        f = Obj(tag="file", _lenient=True)
+                        st = {"pos": 0}
+
+                        def seek(o, whence=0):
+                            st["pos"] = o if whence == 0 else st["pos"] + o
+
+                        def rat(*a, n_frames=None, stride=None, atom_indices=None, **k):
+                            _log["rat"].append((a, n_frames, stride, atom_indices, k))
+                            s_ = stride or 1
+                            fr = list(range(st["pos"], NF, s_))
+                            if n_frames is not None:
+                                fr = fr[:n_frames]
+                            st["pos"] = min(NF, st["pos"] + (n_frames * s_ if n_frames is not None else NF))
+                            return fr
+                        f.seek, f.read_as_traj, f.__enter__ = seek, rat, (lambda: f)
+                        return f
+                    ts = TenSym({}, models={"load": load, "open": opener, "_get_extension": lambda ev, c, _e=ext: _e, "_parse_topology": lambda ev, c, _t=topo: _t,
+                                            "cast_indices": lambda ev, c: ev.ex(c.args[0])})
+                    ts.module_env = {"_TOPOLOGY_EXTS": list(topo_exts)}
+                    cfg = "chunk=%d, stride=%d, skip=%d" % (chunk, stride, skip)
+                    try:
+                        got = ts.run_fn(fn, filename="f" + ext, chunk=chunk, kwargs={"stride": stride, "atom_indices": "AI", "top": "TOP", "skip": skip})
+                    except Raised as e:
+                        problems.append("%s: raises %s" % (cfg, e.exc or e))
+                        continue
+                    except PUnsupported as e:
+                        undec = "%s: not evaluable: %s" % (cfg, e)
+                        continue
+                    want = list(range(NF))[skip::stride]
+                    flat = [x for c_ in got for x in c_] if all(isinstance(c_, list) for c_ in got) else None
+                    if flat != want:
+                        problems.append("%s: the chunks hold frames %s, the definition is %s" % (cfg, flat if flat is not None else got, want))
+                        continue
+                    sizes = [len(c_) for c_ in got]
+                    if chunk == 0:
+                        if len(got) != 1:
+                            problems.append("%s: %d chunks instead of one" % (cfg, len(got)))
+                    elif any(z_ != chunk for z_ in sizes[:-1]) or (sizes and not (0 < sizes[-1] <= chunk)):
+                        problems.append("%s: chunk sizes %s" % (cfg, sizes))
+                    for kw in log["load"]:
+                        if kw.get("atom_indices") != "AI":
+                            problems.append("%s: load() does not get the caller's atom_indices" % cfg)
+                        if ext not in topo_exts and kw.get("top") != "TOP":
+                            problems.append("%s: load() does not get the caller's top" % cfg)
+                    for (a_, nfr, st_, ai_, k_) in log["rat"]:
+                        if ai_ != "AI":
+                            problems.append("%s: read_as_traj does not get the caller's atom_indices" % cfg)
+                        if ext not in topo_exts and not (a_ and a_[0] is topo):
+                            problems.append("%s: read_as_traj does not get the parsed topology" % cfg)
+                    if ext == ".mdcrd" and any(o_.get("n_atoms") != 5 for o_ in log["open"]):
+                        problems.append("%s: the mdcrd file is opened without the number of atoms of the topology" % cfg)
+        desc = "%s: the chunks are frames skip, skip+stride, ... in pieces of `chunk`; atom_indices / top passed on (%d combinations of chunk, stride, skip)" % (kind, n_cfg)
+        if undec and not problems:
+            ctx.undecided("C02-R6", fn, TRAJ, "iterload", desc, undec)
+        else:
+            seen, uniq = set(), []
+            for p_ in problems:
+                k_ = p_.split(": ", 1)[1][:40]
+                if k_ not in seen:
+                    seen.add(k_)
+                    uniq.append(p_)
+            ctx.decide(not problems, "C02-R6", fn, TRAJ, "iterload", desc, "", "; ".join(uniq[:3]))
